@@ -241,74 +241,27 @@ func VerifC04_FullStackFault() {
 // notification and latest-synced value follow the specification.
 func VerifC01_FullStack() {
 	const n = 3
-	multicodec.RegisterEncoder(cid.DagCBOR, dagcbor.Encode)
-	multicodec.RegisterDecoder(cid.DagCBOR, dagcbor.Decode)
-	lp := cidlink.LinkPrototype{Prefix: cid.Prefix{Version: 1, Codec: cid.DagCBOR, MhType: multihash.SHA2_256, MhLength: 16}}
-	pub := &fsStore{m: map[string][]byte{}}
-	publs := fsLsys(pub)
-	chain := make([]cid.Cid, n)
-	var prev ipld.Link
-	for i := n - 1; i >= 0; i-- {
-		p := prev
-		nd := fluent.MustBuildMap(basicnode.Prototype.Map, 2, func(na fluent.MapAssembler) {
-			na.AssembleEntry("ContextID").AssignString(string(rune('a' + i)))
-			if p != nil {
-				na.AssembleEntry("PreviousID").AssignLink(p)
-			}
-		})
-		l, err := publs.Store(ipld.LinkContext{}, lp, nd)
-		verif_Assume(err == nil)
-		chain[i] = l.(cidlink.Link).Cid
-		prev = l
-	}
-
 	local := verif_Choose("localMask", 0, 1<<n-1)
 	depth := verif_Choose("depthLimit", 0, n)  // per-call depth limit; 0 = none
 	stopKind := verif_Choose("stop", 0, 2)     // 0 none, 1 latest-synced = oldest block, 2 explicit stop = oldest block
 	seg := verif_Choose("segDepthLimit", 0, 2) // 0 = no segmentation
-	start := verif_Choose("start", 0, 1)
-	if local == 1<<n-1 {
-		start = 0
-	}
-
-	st := &fsStore{m: map[string][]byte{}}
-	for i := 0; i < n; i++ {
-		if local&(1<<i) != 0 {
-			k := cidlink.Link{Cid: chain[i]}.Binary()
-			st.m[k] = pub.m[k]
-		}
-	}
-	requested := map[int]int{}
-	oldRT := http.DefaultTransport
-	http.DefaultTransport = &fsRT{fn: func(req *http.Request) (*http.Response, error) {
-		for i, c := range chain {
-			if strings.HasSuffix(req.URL.Path, "/"+c.String()) {
-				requested[i]++
-				return &http.Response{StatusCode: 200, Body: io.NopCloser(bytes.NewReader(pub.m[cidlink.Link{Cid: c}.Binary()])), Header: http.Header{}}, nil
-			}
-		}
-		return &http.Response{StatusCode: 404, Body: io.NopCloser(bytes.NewReader(nil)), Header: http.Header{}}, nil
-	}}
-	defer func() { http.DefaultTransport = oldRT }()
-
+	start := verif_Choose("start", 0, 2)       // 0: head queried from the publisher (signed head), 1: explicit newest, 2: explicit second
 	segLimit := int64(-1)
 	if seg > 0 {
 		segLimit = int64(seg)
 	}
-	v := newVSub(chain, -1, 0, segLimit, true)
-	ssb := builder.NewSelectorSpecBuilder(basicnode.Prototype.Any)
-	v.s.adsSelectorSeq = ssb.ExploreFields(func(efsb builder.ExploreFieldsSpecBuilder) {
-		efsb.Insert("PreviousID", ssb.ExploreRecursiveEdge())
-	}).Node()
-	v.s.ipniSync = ipnisync.NewSync(fsLsys(st), v.dispatch)
-	hnd := v.s.getOrCreateHandler(v.peer.ID)
-	hnd.syncer = nil // the real sync client is created by makeSyncer
-	addr, err := multiaddr.NewMultiaddr("/ip4/127.0.0.1/tcp/80/http")
-	verif_Assume(err == nil)
-	pinfo := peer.AddrInfo{ID: v.peer.ID, Addrs: []multiaddr.Multiaddr{addr}}
+	w := newFullStack(n, local, segLimit, 16)
+	defer w.restore()
+	chain, v, st := w.chain, w.v, w.st
+	requested := w.requested
 
 	stopIdx := -1
-	opts := []SyncOption{WithHeadAdCid(chain[start])}
+	var opts []SyncOption
+	startIdx := 0
+	if start > 0 {
+		startIdx = start - 1
+		opts = append(opts, WithHeadAdCid(chain[startIdx]))
+	}
 	switch stopKind {
 	case 1:
 		stopIdx = n - 1
@@ -320,11 +273,12 @@ func VerifC01_FullStack() {
 	if depth > 0 {
 		opts = append(opts, ScopedDepthLimit(int64(depth)))
 	}
-	got, serr := v.s.SyncAdChain(context.Background(), pinfo, opts...)
+	latestBefore := v.latest()
+	got, serr := v.s.SyncAdChain(context.Background(), w.pinfo, opts...)
 	verif_Reach("synced")
 
 	var want []int
-	for i := start; i < n; i++ {
+	for i := startIdx; i < n; i++ {
 		if i == stopIdx {
 			break
 		}
@@ -333,7 +287,7 @@ func VerifC01_FullStack() {
 		}
 		want = append(want, i)
 	}
-	verif_Assert(serr == nil && got == chain[start], "the sync succeeds and returns the head it was given")
+	verif_Assert(serr == nil && got == chain[startIdx], "the sync succeeds and returns the head it was given or queried")
 	if serr != nil {
 		return
 	}
@@ -345,12 +299,12 @@ func VerifC01_FullStack() {
 	}
 	for i := 0; i < n; i++ {
 		inSeg := false
-		for _, w := range want {
-			if w == i {
+		for _, x := range want {
+			if x == i {
 				inSeg = true
 			}
 		}
-		_, have := st.m[cidlink.Link{Cid: chain[i]}.Binary()]
+		_, have := st.m[fsKey(chain[i])]
 		if local&(1<<i) != 0 {
 			verif_Assert(requested[i] == 0, "a block already in the local store is not requested from the publisher")
 		} else if inSeg {
@@ -358,5 +312,15 @@ func VerifC01_FullStack() {
 		} else {
 			verif_Assert(requested[i] == 0 && !have, "no block beyond the stop point or the depth limit is requested or stored")
 		}
+	}
+	evs := v.drain()
+	if start == 0 {
+		verif_Assert(w.headQueries == 1, "the head is queried once")
+		verif_Assert(v.latest() == chain[0], "a sync of the queried head records it as latest-synced")
+		verif_Assert(len(evs) == 1 && evs[0].Cid == chain[0] && evs[0].PeerID == v.peer.ID && evs[0].Count == len(want) && evs[0].Err == nil, "and emits exactly one notification with head, publisher and block count")
+	} else {
+		verif_Assert(w.headQueries == 0, "an explicit head is not queried")
+		verif_Assert(v.latest() == latestBefore, "a sync of an explicit head leaves the latest-synced value alone")
+		verif_Assert(len(evs) == 0, "and emits no notification")
 	}
 }
